@@ -35,9 +35,19 @@ def read(source, format=None):
     if format:
         return ProvDocument.deserialize(source=source, format=format.lower())
 
+    if hasattr(source, "read"):
+        # A stream can only be consumed once: read it now and try every
+        # format on its content.
+        content = source.read()
+        source = None
+    else:
+        content = None
+
     for format in serializers:
         try:
-            return ProvDocument.deserialize(source=source, format=format)
+            return ProvDocument.deserialize(
+                source=source, content=content, format=format
+            )
         except:
             pass
     else:
